@@ -43,7 +43,7 @@ func mkNum(k int, label string) (any, float64) {
 		x := uint64(verif.IntRange(label, 0, 1<<53))
 		return x, float64(x)
 	case 10:
-		x := float32(verif.IntRange(label, -(1 << 24), 1<<24)) / 4
+		x := float32(verif.IntRange(label, -(1<<24), 1<<24)) / 4
 		return x, float64(x)
 	default:
 		x := verif.F64(label)
